@@ -68,6 +68,9 @@ class Pattern(Serialize, ABC):
     def max_width(self) -> int:
         raise NotImplementedError()
 
+    def _deserialize(self):
+        self.flags = frozenset(self.flags)
+
     def _get_flags(self, value):
         for f in self.flags:
             value = ('(?%s:%s)' % (f, value))
